@@ -429,3 +429,56 @@ def run_erange(prog, ctx=None):
                    {"call": norm(show(e, f))})
             res.count("strto_calls")
     return res
+
+
+CONVERTERS = ("mpt_value_convert", "mpt_data_convert", "mpt_convert_number", "mpt_convert_string", "mpt_cdouble", "mpt_cfloat", "mpt_cldouble")
+
+
+def run_convboth(prog, ctx=None):
+    """CONVBOTH: asking whether a conversion is possible (no destination) gives the verdict of performing it.  In a function
+    that takes the caller's destination D (a pointer it tests for null) and delegates to a converter, the converter also
+    runs on the paths where D is null: if every converter call is reached with D non-null only, while a path with D null
+    reaches a return that is not an error constant, the no-destination query answers without converting."""
+    from .rules_path import null_partitioned, tested_pointers, funcs_of
+    res = Result("CONVBOTH")
+    files = set(ctx.get("files", [])) if ctx else None
+    for f in funcs_of(prog, files):
+        calls = []
+        for b, i, e in f.elements():
+            if e.get("k") == "call":
+                nm = callee_name(e) or ""
+                ce = strip(e["callee"], all_casts=True) if e.get("callee") is not None else {}
+                if nm in CONVERTERS or (ce.get("k") == "mem" and ce.get("f") == "convert"):
+                    calls.append((b, i, e))
+        if not calls:
+            continue
+        tv = sorted(tested_pointers(f))
+        pids = {p["id"]: p["n"] for p in f.params if f.T(p["t"]).get("k") == "ptr" and f.T(f.T(p["t"]).get("to")).get("k") in ("void", "int") and not f.T(f.T(p["t"]).get("to")).get("const")}
+        cand = [(k, vid) for k, vid in enumerate(tv) if vid in pids]
+        if not cand:
+            continue
+        an = null_partitioned(prog, f)
+        PK = an.PK
+        for k, vid in cand:
+            at_calls = set()
+            for b, i, e in calls:
+                for key in an.pre_parts.get((b.id, i), {}):
+                    at_calls.add(key[k] if isinstance(key, str) and len(key) > k else "?")
+            if not at_calls or at_calls != {"P"}:
+                res.ob("%s:%s" % (f.qn, pids[vid]), True, f, f.line)
+                continue
+            # is there a return that is not an error constant with D null?
+            quiet = None
+            for b, i, e in f.elements():
+                if e.get("k") == "ret" and e.get("e") is not None:
+                    cv = cval(e["e"])
+                    if cv is not None and cv < 0:
+                        continue
+                    for key in an.pre_parts.get((b.id, i), {}):
+                        if isinstance(key, str) and len(key) > k and key[k] == "N":
+                            quiet = e
+            ok = quiet is None
+            res.ob("%s:%s" % (f.qn, pids[vid]), ok, f, (quiet or {}).get("l", f.line),
+                   "" if ok else "%s: every converter call runs only when `%s` is non-null, but with `%s` null the function reaches `%s` (line %s): the query without destination is answered without converting" % (
+                       f.qn, pids[vid], pids[vid], norm(show(quiet, f))[:40], quiet.get("l")))
+    return res
